@@ -63,7 +63,9 @@ func VP_C09_shared() {
 	var tree Expression
 	if N == 0 {
 		// pool of shared formulas whose builtins touch library state (patterns, rounding)
-		text := []string{"[regexp('a', 'a'), regexp('b', 'b+'), regexp('ab', 'c')]", "[round(2.5), 7 / 2, toString(1.50)]", "x > 1 ? lpad('a', '0', 3) : regexp('(', '(')", "[st.Name, st.Age, tg.ID, st.Name]", "(st).Name + ((tg)).ID", "[roundBank(2.5), round(2.5), roundBank(3.5), ceil(1.0), floor(-1.0)]"}[vpChoice("pool", 6)]
+		text := []string{"[regexp('a', 'a'), regexp('b', 'b+'), regexp('ab', 'c')]", "[round(2.5), 7 / 2, toString(1.50)]", "x > 1 ? lpad('a', '0', 3) : regexp('(', '(')", "[st.Name, st.Age, tg.ID, st.Name]", "(st).Name + ((tg)).ID", "[roundBank(2.5), round(2.5), roundBank(3.5), ceil(1.0), floor(-1.0)]",
+			// error paths: non-null assertion on a null member chain, a call of a missing name, a failing builtin
+			"y.a!.b", "y!.k", "(y.a)!.b + 1", "[x, y.a.b!.c.d]", "nofn(x)", "left('abc', -1)", "x.k!.j"}[vpChoice("pool", 13)]
 		code, err := ParseSourceCode([]byte(text))
 		if err != nil {
 			vpAssert("C09/shared/pool-parses", false)
